@@ -4,6 +4,7 @@ from .. import env, attach, gen, flow
 from ..mon_problem import mon_mapping_asset, mon_mapping_portfolio
 
 PROPERTY = 'C07'
+gen.OFFGRID = 0.12      # some asset windows start or end strictly between two grid points
 CASES = {'quick': 720, 'thorough': 5760}
 BUDGET_S = {'quick': 150, 'thorough': 1500}
 SUITE_UNDER_MONITORS = True      # thorough tier: the repository's own tests are an extra workload under the passive monitors
